@@ -326,6 +326,9 @@ def r01_6(chk, facts):
 LAYOUT_ONLY = {'begin_scalar_value', 'end_value', 'break_line', 'new_line', 'write_indent', 'write_indent1', 'indent', 'unindent'}
 PUNCT = (0x2c, 0x3a, 0x20, 0x0a, 0x0d, 0x5b, 0x5d, 0x7b, 0x7d)
 
+R01_3_NAMES = ('visit_null', 'visit_bool', 'visit_int64', 'visit_uint64', 'visit_double', 'visit_string', 'visit_byte_string', 'visit_key',
+               'write_bignum_value', 'write_string')
+
 def value_tokens(facts, cls, name, chartype):
     """The value text a visit_* / helper of one encoder class writes: (switch context, callee, arguments) of every call that writes through
     the sink or calls a member helper, layout calls and punctuation excluded."""
@@ -333,11 +336,16 @@ def value_tokens(facts, cls, name, chartype):
            ('<%s,' % chartype in (f.get('cls') or '') or '<%s>' % chartype in (f.get('cls') or ''))]
     if not fns: return None, None
     fn = fns[0]
+    # statements moved into a private helper of one encoder (not one of the compared functions, not layout) are read where they are called
+    from .. import inline as I
+    fn = I.expand(facts, fn, allow=lambda callee, call: callee['n'] not in R01_3_NAMES and callee['n'] not in LAYOUT_ONLY, depth=2)
     g = C.CFG(fn['body'])
     out = {}
+    inlined = set(id(y['call']) for y in A.walk_no_lambda(fn['body']) if y.get('k') == 'InlinedCall' and isinstance(y.get('call'), dict))
     for nd in g.rpo:
         if nd.kind not in ('stmt', 'cond', 'return') or not isinstance(nd.ast, dict): continue
         for c in A.calls_in(nd.ast):
+            if id(c) in inlined: continue
             nm = A.callee_name(c)
             uses_sink = any(A.ref_name(a) == 'sink_' for a in c.get('args') or []) or A.ref_name(c.get('obj')) == 'sink_'
             o = A.strip(c.get('obj'), casts=True) if c.get('obj') is not None else None
@@ -367,8 +375,7 @@ def value_tokens(facts, cls, name, chartype):
 def r01_3(chk, facts, tier):
     chk.rule('R01.3', 'sibling agreement: for every value event and value helper, the pretty and the compact JSON encoder write the same value text '
                       '(same writer calls with the same arguments under the same option/tag cases); only layout differs', floor=10)
-    names = ('visit_null', 'visit_bool', 'visit_int64', 'visit_uint64', 'visit_double', 'visit_string', 'visit_byte_string', 'visit_key',
-             'write_bignum_value', 'write_string')
+    names = R01_3_NAMES
     for ct in (('char', 'wchar_t') if tier == 'thorough' else ('char',)):
         for name in names:
             fa, a = value_tokens(facts, 'basic_json_encoder', name, ct)
